@@ -590,8 +590,14 @@ where
             "if you're not gonna store any cells then why are you even calling this function?"
         );
 
-        let ideal_size =
-            Self::max_payload_size_in(Self::usable_space(page_size) as usize / min_cells);
+        // A balanced page is at most three quarters full (see [`Self::overflow_threshold`]) and
+        // must still take one more cell - the divider that a split below it propagates - before it
+        // is rebalanced itself. So no cell, with its overflow pointer, may need more than the
+        // quarter that is left.
+        let usable_space = Self::usable_space(page_size) as usize;
+        let spare = usable_space - Self::overflow_threshold(page_size);
+        let ideal_size = Self::max_payload_size_in(usable_space / min_cells)
+            .min(Self::max_payload_size_in(spare).saturating_sub(mem::size_of::<PageId>()));
 
         debug_assert!(
             ideal_size > 0,
